@@ -327,6 +327,20 @@ class Finding:
         self.signature = signature
 
 
+def write_fallback_replay(prop_id, seed, tier, error, where):
+    """replay file for the case that the harness itself could no longer observe the implementation (see ./check)"""
+    d = os.path.join(VERIF, "replays")
+    os.makedirs(d, exist_ok=True)
+    path = os.path.join(d, f"{prop_id}-{seed}.json")
+    with open(path, "w", encoding="utf-8") as f:
+        json.dump({"property": prop_id, "kind": "correspondence",
+                   "detail": f"correspondence for {prop_id} no longer checks: the harness could not observe the implementation "
+                             f"the way the model prescribes ({error}) at {where}; no failing input found",
+                   "case": {"label": "harness observation failed"}, "expected": None, "observed": error,
+                   "seed": seed, "tier": tier}, f, indent=1, ensure_ascii=True, default=str)
+    return os.path.relpath(path, VERIF)
+
+
 def load_known_findings():
     known, fixed = [], []
     p = os.path.join(VERIF, "KNOWN_FINDINGS.txt")
